@@ -70,6 +70,8 @@ func goEnvNoWork() []string {
 	return append(env, "GOWORK=off", "GOFLAGS=-mod=mod", "GOPROXY=off", "GOSUMDB=off", "GOTOOLCHAIN=local")
 }
 
+var e2eGenPath string
+
 func buildE2EGen(opts *RunOpts) error {
 	e2eBuildOnce.Do(func() {
 		dir := filepath.Join(opts.Verif, "e2e")
@@ -91,7 +93,9 @@ func buildE2EGen(opts *RunOpts) error {
 		}
 		os.WriteFile(filepath.Join(dir, "go.mod"), []byte(strings.Join(lines, "\n")), 0o644)
 		os.MkdirAll(filepath.Join(opts.Verif, "bin"), 0o755)
-		cmd := exec.Command("go", "build", "-o", filepath.Join(opts.Verif, "bin", "e2egen"), ".")
+		// one binary per process: checks may run side by side
+		e2eGenPath = filepath.Join(opts.Verif, "bin", fmt.Sprintf("e2egen-%d", os.Getpid()))
+		cmd := exec.Command("go", "build", "-o", e2eGenPath, ".")
 		cmd.Dir = dir
 		cmd.Env = goEnvNoWork()
 		out, err := cmd.CombinedOutput()
@@ -183,7 +187,7 @@ func runE2E(opts *RunOpts, c *E2ECase) (*E2EResult, error) {
 	}
 	ctx, cancel := context.WithTimeout(context.Background(), genTimeout)
 	defer cancel()
-	gcmd := exec.CommandContext(ctx, filepath.Join(opts.Verif, "bin", "e2egen"))
+	gcmd := exec.CommandContext(ctx, e2eGenPath)
 	gcmd.Stdin = bytes.NewReader(jb)
 	var gout, gerr bytes.Buffer
 	gcmd.Stdout, gcmd.Stderr = &gout, &gerr
